@@ -320,7 +320,7 @@ int main (void) {
             close (pfd[1]);
             fflush (stderr);
             __lsan_do_leak_check ();            /* terminates with the sanitizer exit code on a leak */
-            _exit (0);                          /* not exit(): that would rewind the shared stdin offset */
+            HX_COV_DUMP (); _exit (0);          /* not exit(): that would rewind the shared stdin offset */
         } else {
             char *buf = NULL; size_t len = 0, cap = 0; ssize_t k; int status = 0;
             close (pfd[1]);
